@@ -1,0 +1,53 @@
+//go:build verif
+
+package rag
+
+// Contracts for gocv (comment-only; see /verif/DESIGN.md).  No executable code.
+
+// RFC 3629 UTF-8 automaton. States: 0 = at a character boundary, 1/2/3 = that many continuation bytes
+// still expected, 4 = after E0, 5 = after ED, 6 = after F0, 7 = after F4, 9 = reject.
+//@ spec func isCont(b int) bool = b >= 128 && b <= 191
+//@ spec func utf8step(s int, b int) int = s == 0 ? (b < 128 ? 0 : ((b >= 194 && b <= 223) ? 1 : (b == 224 ? 4 : (((b >= 225 && b <= 236) || b == 238 || b == 239) ? 2 : (b == 237 ? 5 : (b == 240 ? 6 : ((b >= 241 && b <= 243) ? 3 : (b == 244 ? 7 : 9)))))))) : (s == 1 ? (isCont(b) ? 0 : 9) : (s == 2 ? (isCont(b) ? 1 : 9) : (s == 3 ? (isCont(b) ? 2 : 9) : (s == 4 ? ((b >= 160 && b <= 191) ? 1 : 9) : (s == 5 ? ((b >= 128 && b <= 159) ? 1 : 9) : (s == 6 ? ((b >= 144 && b <= 191) ? 2 : 9) : (s == 7 ? ((b >= 128 && b <= 143) ? 2 : 9) : 9)))))))
+// st is the run of the automaton over text: text is valid UTF-8 and position p is a character boundary iff st[p] == 0
+//@ spec opaque func validUTF8(text string, st []int) bool = len(st) == len(text) + 1 && st[0] == 0 && st[len(text)] == 0 && (forall p int :: {st[p]} {text[p]} 0 <= p && p < len(text) ==> st[p+1] == utf8step(st[p], text[p]) && st[p] != 9 && 0 <= text[p] && text[p] <= 255)
+//@ spec func isBreak(b int) bool = b == ' ' || b == 10
+
+//@ func isSentenceEndChar results (r)
+//@   property C13
+//@   flags inline
+
+//@ func findWordBoundaryNear results (r)
+//@   property C13, C02
+//@   ghost st []int
+//@   requires targetPos >= 0
+//@   requires validUTF8(text, st)
+//@   ensures range: 0 <= r && r <= len(text)
+//@   ensures boundary: st[r] == 0
+//@   ensures bound: (exists k int :: targetPos - 50 < k && k <= targetPos && 0 <= k && k < len(text) && isBreak(text[k])) ==> r <= targetPos + 1
+//@   ensures overshoot: r <= targetPos + 50
+//@   loop 0:
+//@     invariant 0 - 1 <= i && i <= targetPos && targetPos < len(text)
+//@     invariant forall k int :: {text[k]} i < k && k <= targetPos ==> !isBreak(text[k])
+//@     decreases i + 1
+//@   loop 1:
+//@     invariant targetPos <= i && i <= len(text) && i <= targetPos + 50
+//@     decreases len(text) - i
+//@   loop 2:
+//@     invariant 0 <= targetPos && targetPos <= old(targetPos) && targetPos < len(text)
+//@     decreases targetPos
+
+//@ func findSentenceEndNear results (r)
+//@   property C13, C02
+//@   ghost st []int
+//@   requires targetPos >= 0
+//@   requires validUTF8(text, st)
+//@   bind findWordBoundaryNear.st = st
+//@   ensures range: 0 <= r && r <= len(text)
+//@   ensures boundary: st[r] == 0
+//@   ensures overshoot: r <= targetPos + 100
+//@   loop 0:
+//@     invariant 0 - 1 <= i && i <= targetPos && targetPos < len(text)
+//@     decreases i + 1
+//@   loop 1:
+//@     invariant targetPos <= i && i <= len(text) && i <= targetPos + 100
+//@     decreases len(text) - i
